@@ -97,6 +97,7 @@ type Validation struct {
 	Name        string
 	TargetClass string // compact form prefix.Local
 	Message     string // "" -> no message key
+	MessageRaw  YNode  // when set, emitted as the value of `message:` instead of Message (null, list, map, ...)
 	Body        Expr
 }
 
@@ -144,7 +145,9 @@ func (p *ProfileDoc) YAML() *YMap {
 
 func ValidationYAML(v Validation) *YMap {
 	b := NewYMap()
-	if v.Message != "" {
+	if v.MessageRaw != nil {
+		b.Set("message", v.MessageRaw)
+	} else if v.Message != "" {
 		b.Set("message", Str(v.Message))
 	}
 	b.Set("targetClass", Str(v.TargetClass))
